@@ -1,0 +1,25 @@
+//go:build verif
+
+// Contracts checked by /verif/govc (comment-only; compiled only with -tags verif).
+package ioutils
+
+// Section decoders: no panic and, on success, the reported count is the consumed prefix of the input (8 bytes
+// of length followed by length words) -- PROVIDED the length word is below 2^61: for larger values the size
+// computation 8+4*length wraps around, the length check passes and make([]uint32, length) panics
+// (observation F14 in DESIGN.md section 9; reproduced on the real code; outside the listed properties, which
+// speak about valid encodings, hence recorded and not repaired).
+//@ contract ReadAndDecompressUints32
+//@   props C09
+//@   requires @no-wrap len(in) >= 8 ==> le64(in[:8]) < 2305843009213693952
+//@   nopanic
+//@   ensures @consumed err == nil ==> 8 <= read && read <= len(in)
+//@   loop 1 invariant @in 4 * length <= len(in)
+//@   loop 1 invariant @buf len(buf32) == length
+
+//@ contract ReadAndDecompressUints64
+//@   props C09
+//@   requires @no-wrap len(in) >= 8 ==> le64(in[:8]) < 1152921504606846976
+//@   nopanic
+//@   ensures @consumed result.2 == nil ==> 8 <= result.0 && result.0 <= len(in)
+//@   loop 1 invariant @in 8 * length <= len(in)
+//@   loop 1 invariant @buf len(buffer) == length
